@@ -6,7 +6,7 @@ import gffutils
 from gv.model import dbutil, files, grammar as G
 
 ID = "C01"
-RULE = ("dialect (36) x file shape (6) x (line count, checklines) x database kind x merge_strategy x sort_attribute_values; "
+RULE = ("dialect (48) x file shape (6) x (line count, checklines) x database kind x merge_strategy x sort_attribute_values; "
         "every execution imports a freshly written file with the real create_db; non-trivial = the file has more lines than "
         "the dialect-peek window, or a non-default dialect dimension, or the database is reopened from disk")
 ASSUMPTIONS = [
